@@ -32,6 +32,8 @@ func verifDigits(b string) (int, bool) {
 }
 
 // C08: a TTL string that is accepted denotes exactly the TTL that is returned.
+// Text form: [+|-] digits [unit]; a missing unit means minutes (strconv's optional sign is part of
+// the accepted syntax and keeps the meaning).
 func VerifC08_TTLString() {
 	n := rt.Len("len", 1, rt.Param("ttlstrlen", 3))
 	s := rt.Str("s", n)
@@ -47,18 +49,120 @@ func VerifC08_TTLString() {
 		body = s
 		unit = 'm'
 	}
-	v, digits := verifDigits(body)
-	knownUnit := rt.Or(rt.Or(rt.Or(unit == 'm', unit == 'h'), rt.Or(unit == 'd', unit == 'w')), rt.Or(unit == 'M', unit == 'y'))
-	if rt.And(digits, rt.And(knownUnit, v <= 255)) {
-		// plain in-range text: the returned TTL carries that count and unit, and prints back to a string with the same meaning
-		rt.Assert(rt.And(int(t.Count) == v, t.Unit == toStoredByte(unit)), "ttl-string-meaning")
-		t2, err2 := ReadTTL(t.String())
-		rt.Assert(err2 == nil, "ttl-string-reparse")
-		if v != 0 {
-			rt.Assert(rt.And(t2.Count == t.Count, t2.Unit == t.Unit), "ttl-string-roundtrip")
+	neg := false
+	if len(body) > 1 {
+		if body[0] == '+' {
+			body = body[1:]
+		} else if body[0] == '-' {
+			neg = true
+			body = body[1:]
 		}
-	} else {
-		// anything else must not be silently accepted as some other TTL
-		rt.Assert(false, "ttl-string-accepts-garbage@known:readttl-lenient")
 	}
+	v, digits := verifDigits(body)
+	if neg {
+		v = -v
+	}
+	knownUnit := rt.Or(rt.Or(rt.Or(unit == 'm', unit == 'h'), rt.Or(unit == 'd', unit == 'w')), rt.Or(unit == 'M', unit == 'y'))
+	// anything that is not  digits + known unit  with a count in [0,255] must have been rejected
+	rt.Assert(digits, "ttl-string-nondigit-count-accepted")
+	rt.Assert(knownUnit, "ttl-string-unknown-unit-accepted")
+	rt.Assert(rt.And(v >= 0, v <= 255), "ttl-string-count-out-of-range-accepted")
+	rt.Assert(rt.And(int(t.Count) == v, t.Unit == toStoredByte(unit)), "ttl-string-meaning")
+	t2, err2 := ReadTTL(t.String())
+	rt.Assert(err2 == nil, "ttl-string-reparse")
+	if v != 0 {
+		rt.Assert(rt.And(t2.Count == t.Count, t2.Unit == t.Unit), "ttl-string-roundtrip")
+	}
+}
+
+// C08: file ids (volume, key, cookie) print and parse back to themselves.
+func VerifC08_FileIdRoundTrip() {
+	vid := VolumeId(rt.U32("vid"))
+	key := rt.U64("key")
+	cookie := rt.U32("cookie")
+	if rt.Param("vidbits", 32) < 32 {
+		rt.Assume(uint32(vid) < 1<<uint(rt.Param("vidbits", 32)))
+	}
+	// validity: needle keys are handed out from 1 upwards; key 0 is the "empty" id
+	rt.Assume(key != 0)
+	f := NewFileId(vid, key, cookie)
+	s := f.String()
+	g, err := ParseFileIdFromString(s)
+	rt.Cover("parsed")
+	rt.Assert(err == nil, "fid-own-string-accepted")
+	rt.Assert(rt.And(rt.And(g.VolumeId == vid, uint64(g.Key) == key), uint32(g.Cookie) == cookie), "fid-roundtrip")
+}
+
+func verifHexVal(c byte) (v uint64, ok bool) {
+	isd := rt.And(c >= '0', c <= '9')
+	isl := rt.And(c >= 'a', c <= 'f')
+	isu := rt.And(c >= 'A', c <= 'F')
+	v = uint64(c - '0')
+	if isl {
+		v = uint64(c-'a') + 10
+	}
+	if isu {
+		v = uint64(c-'A') + 10
+	}
+	return v, rt.Or(isd, rt.Or(isl, isu))
+}
+
+// C08: a file-id text that is accepted denotes exactly the (volume, key, cookie) returned.
+func VerifC08_FileIdParse() {
+	nv := rt.Len("vidlen", 1, rt.Param("vidlen", 2))
+	nk := rt.Len("keylen", 1, rt.Param("keylen", 2))
+	vs := rt.Str("vid", nv)
+	ks := rt.Str("key", nk)
+	cs := rt.Str("cookie", 8)
+	g, err := ParseFileIdFromString(vs + "," + ks + cs)
+	if err != nil {
+		rt.Cover("rejected")
+		return
+	}
+	rt.Cover("accepted")
+	v, digits := verifDigits(vs)
+	rt.Assert(digits, "fid-vid-nondigit-accepted")
+	rt.Assert(int(g.VolumeId) == v, "fid-vid-meaning")
+	var k uint64
+	ok := true
+	for i := 0; i < nk; i++ {
+		h, o := verifHexVal(ks[i])
+		k = k<<4 | h
+		ok = rt.And(ok, o)
+	}
+	var c uint64
+	for i := 0; i < 8; i++ {
+		h, o := verifHexVal(cs[i])
+		c = c<<4 | h
+		ok = rt.And(ok, o)
+	}
+	rt.Assert(ok, "fid-nonhex-accepted")
+	rt.Assert(rt.And(uint64(g.Key) == k, uint64(g.Cookie) == c), "fid-key-cookie-meaning")
+}
+
+func verifDigits32(b string) uint32 {
+	var v uint32
+	for i := 0; i < len(b); i++ {
+		v = v*10 + uint32(b[i]-'0')
+	}
+	return v
+}
+
+// C08: a volume id text beyond 32 bits must not be silently decoded as another volume.
+func VerifC08_VolumeIdRange() {
+	// ten-digit decimal strings cover 2^32 .. 9999999999
+	s := rt.Str("vid", 10)
+	v, digits := verifDigits(s)
+	rt.Assume(digits)
+	rt.Assume(s[0] != '0')
+	id, err := NewVolumeId(s)
+	if err != nil {
+		rt.Cover("rejected")
+		return
+	}
+	rt.Cover("accepted")
+	_ = v
+	// for ten-digit texts without a leading zero numeric order is lexicographic order
+	rt.Assert(s <= "4294967295", "vid-out-of-range-accepted")
+	_ = id // the numeric meaning of accepted volume texts is checked on shorter texts in VerifC08_FileIdParse
 }
